@@ -300,6 +300,37 @@ def out_alloc_pass(plan):
                 ob.status, ob.detail, ob.raw = "violated", why, "%s! arm %s: %s" % (macro, struct, why)
 
 
+def same_storage_guard_pass(plan):
+    """Anchor pass (syntactic): the three same-storage dynamic arms of impl_binop_match_arms! (DMatrix x DMatrix, RowDVector x
+    RowDVector, DVector x DVector) compare the operands' extents and return an error before they build the kernel."""
+    import vlib, re
+    text = vlib.read_repo("src/core/src/stdlib.rs")
+    try:
+        mt = vlib.extract_macro(text, "impl_binop_match_arms")
+    except vlib.AnchorLost as e:
+        plan.anchor_errors.append(("C01.dispatch.same_storage_guard", str(e)))
+        return
+    for st, form in (("DMatrix", "MDMD"), ("RowDVector", "RDRD"), ("DVector", "VDVD")):
+        name = "C01.dispatch.same_storage_guard.%s" % form
+        ob = plan.ob(name, "syntactic", "bounded", bound="source-text pass over the dispatch arm (not a proof)", functions=["impl_binop_match_arms! arm %s x %s" % (st, st)],
+                     what="operands of the same dynamic storage but different shape are rejected before the %s kernel is built" % form)
+        m = re.search(r"\(Matrix::%s\(lhs\)\)\s*,\s*Value::\[<Matrix \$lhs_type>\]\(Matrix::%s\(rhs\)\)\)\s*=>\s*\{" % (st, st), mt)
+        if not m:
+            plan.anchor_errors.append((name, "arm not found"))
+            ob.status, ob.detail = "undecided", "arm not found"
+            continue
+        arm = mt[m.end():vlib.match_brace(mt, m.end() - 1)]
+        k = arm.find("Ok(Box::new(")
+        pre = arm[:k] if k >= 0 else arm
+        cmp_ok = re.search(r"if\s+[^{}]*(rhs[^{}]*!=|!=[^{}]*rhs)[^{}]*\{\s*return\s+Err\(", pre) is not None
+        if cmp_ok:
+            ob.status = "discharged"
+        else:
+            ob.status = "violated"
+            ob.detail = "the %s x %s arm builds %s without comparing the operands' shapes" % (st, st, form)
+            ob.raw = ob.detail
+
+
 def modname(op, prop="C01"):
     return "verif_%s_%s" % (prop.lower(), op)
 
@@ -396,6 +427,16 @@ def plan(plan, tier, seed, prop="C01", selector=None, twice=None):
                                  what="%s%s<%s>::solve: out has the broadcast shape, out[r,c] == lhs[..] %s rhs[..], operands unchanged, second solve is a no-op" % (
                                      d["struct"], form[0], T, op))
                     groups.setdefault(d["crate"], {})[fn] = ob
+                    if prop == "C01" and op == "mod" and form[0] == "SS" and T in ("i8", "i16", "i32", "i64", "i128"):
+                        # the one pair the precondition `checked_rem(..).is_some()` leaves out although the property covers it:
+                        # the exact remainder of MIN by -1 is 0, which is representable in the kind
+                        fn2 = pfx + "mod_ss_%s_minm1" % T
+                        text2 = kgen.bin_harness(fn2, d["struct"], T, O, form, R, C, "{a} == %s::MIN && {b} == -1" % T, "0",
+                                                 generic=True, exact=None, unwind=None, twice=False)
+                        hs.append((fn2, text2))
+                        ob2 = plan.ob("C01.mod.SS.%s.min_mod_minus_one" % T, "kani", "proved", functions=["ModSS<%s>::solve" % T],
+                                      what="ModSS<%s>::solve on (%s::MIN, -1): the exact remainder 0 is representable, so the result is 0" % (T, T))
+                        groups.setdefault(d["crate"], {})[fn2] = ob2
         plan.harness_files[gen_path(op, prop)] = kgen.module_text(hs, "vkreplay_%s_%s" % (prop.lower(), op))
         plan.functions.append("%s: %s{SS,SMD,SRD,SVD,MDS,RDS,VDS,MDMD,RDRD,VDVD,MDVD,VDMD,MDRD,RDMD}<T>::solve for T in %s (kernel macros %s_op, _vec_op, _scalar_lhs_op, _scalar_rhs_op, _mat_vec_op, _vec_mat_op, _mat_row_op, _row_mat_op)" % (
             d["file"], d["struct"], kinds, op))
@@ -448,6 +489,10 @@ def plan(plan, tier, seed, prop="C01", selector=None, twice=None):
             out_alloc_pass(plan)
         except Exception as e:
             plan.anchor_errors.append(("C01.dispatch.out_alloc", repr(e)))
+        try:
+            same_storage_guard_pass(plan)
+        except Exception as e:
+            plan.anchor_errors.append(("C01.dispatch.same_storage_guard", repr(e)))
         from units import fallback
         fallback.unit(plan, "C01", [("impl_mech_binop_fxn", "src/core/src/stdlib.rs", r"macro_rules!\s*impl_mech_binop_fxn", r"\$gen_fxn")])
     plan.trusted += ["Verus 0.2026.09.13 / Z3 (scalar kernels, K)", "Kani 0.68 MIR->goto translation and CBMC 6.11 (bit-precise, incl. IEEE-754)", "nalgebra 0.34 is executed, not modelled",
